@@ -6,10 +6,14 @@ and single simplices), `df.surface_3D` (hexahedral blocks) on generated meshes:
 structured hex blocks up to 4x4x4, tetrahedra from split hexes, quadratic elements (hex20, hex16, tet10), mixed
 hex+tet meshes, meshes with an unsupported (6-node) element, planar quad meshes in planes of any orientation
 (z/x/y = const, integer lattice planes, rotated planes), bar meshes (nodes on a line), perturbed node positions,
-coordinate scales 1e-6 … 1e3 (uniform and anisotropic), node / element id maps (1..N, 0-based, offset, gaps,
+coordinate scales (uniform 1e-6 … 1e3; per-axis scales from 1e-6 up to 1e5 with an anisotropy of at most 1e4, surface
+blocks at most 1e3), node / element id maps (1..N, 0-based, offset, gaps,
 reversed, permuted, negative), row orders (element blocks, reversed / shuffled blocks, interleaved elements, fully
-shuffled rows), both index level orders, and frames that carry more than [x, y, z, value] (decoy numeric / string
+shuffled rows - the last not for gradient_3D / mapping), both index level orders, and frames that carry more than
+[x, y, z, value] (decoy numeric / string
 columns, a second value column, permuted column order, other value column names, integer value dtype).
+Hot-spot cases also carry NaN nodal values and an `artefact_threshold`; mapping cases use duplicated node rows as the
+source in part of the cases and three layouts of the target index.
 Oracle: the property's own relations on the real code, independent of the Lean model."""
 import json
 import math
@@ -411,23 +415,26 @@ class C19(Prop):
     LEAN_MODULES = ["Proofs.C19"]
     THEOREMS = []      # filled below
     PARTIAL = {}
-    RULE = ("gradient_3D / gradient of f = g.x + c equals g at every node (per component: 2e-12 x max|f| / element size) for every "
-            "mesh, id map, row order, column layout and coordinate scale 1e-6..1e3; on planar / bar meshes the least-squares gradient "
+    RULE = ("gradient_3D / gradient of f = g.x + c equals g at every node (per component k: 1e4 x eps x max|f| / s_k + 50 x eps x "
+            "(s_max / s_min) x max|g|, s_k = the coordinate scale of axis k, not an element size) for every "
+            "mesh, id map, row order, column layout and coordinate scale (uniform 1e-6..1e3, per axis up to 1e5 with anisotropy <= 1e4); "
+            "excused: exactly (0,0,0) at a mid-side node of a 16/20/10-node element (open finding g3d-midside-zero); required: NaN at "
+            "nodes first listed by an element with an unsupported node count; on planar / bar meshes the least-squares gradient "
             "is the tangential part of g (minimum norm); griddata mapping returns the field on the same points and the linear values "
-            "on interior points; is_at_surface flags exactly the boundary nodes of a hex block; hot-spot labels: >= 1 iff value >= "
+            "on interior points; is_at_surface flags exactly the boundary nodes of an untangled hex block; hot-spot labels: >= 1 iff value >= "
             "frac*max, classes = connected components under shared node / shared element, numbered by descending peak")
     ASSUMPTIONS = [
-        "np.linalg.inv is modelled by adjugate/determinant (a Jacobian counts as singular iff its determinant is exactly 0 - the code catches LinAlgError, which LAPACK raises on an exactly zero pivot; agreement on exactly collapsed elements only, float-singular Jacobians with a tiny non-zero determinant are not generated); agreement with LAPACK is measured with a per-component tolerance, not proved",
+        "np.linalg.inv is modelled by adjugate/determinant (a Jacobian counts as singular iff its determinant is exactly 0 - the code catches LinAlgError, which LAPACK raises on an exactly zero pivot; no degenerate element is generated - neither exactly collapsed ones nor float-singular Jacobians with a tiny non-zero determinant - so the det = 0 branch of the model is untested); agreement with LAPACK is measured with a per-component tolerance, not proved",
         "np.linalg.lstsq(rcond=None) is modelled as the minimum-norm least-squares solution with a RELATIVE rank decision on the eigenvalue ratios of A^T A (model cut-off 1e-12 on lambda3/lambda1-like ratios; LAPACK gelsd: singular values <= eps*max(n,3)*sigma1 count as zero). The two decisions agree when sigma3/sigma1 <= eps (rows coplanar up to rounding) or >= 1e-5 (generated 3-D meshes: anisotropy <= 1e4); in between (planar meshes whose coordinates carry rounding noise, e.g. a rotated plane far from the origin) the code's component NORMAL to the plane is amplified rounding noise - on such cases only the tangential part is compared / required, the count is recorded (lsq_planar_noisy_normal)",
         "scipy.interpolate.griddata: the Delaunay triangulation (Qhull) and the point location are external; the model interpolates on the triangulation that scipy.spatial.Delaunay returns for the same source points (first simplex whose barycentric weights are >= -1e-9; scipy's own tolerance is 100*eps): agreement is measured on whole meshes, the theorems assume a triangulation of non-degenerate simplices",
         "surface clause: quantified over untangled blocks only (every corner Jacobian positive, corner solid angles tile 4*pi at interior nodes and stay <= 3*pi at boundary nodes - checked by the generator with an independent formula); on tangled or deeply folded perturbed blocks the code's max-over-node-triples estimate of an element's solid angle over- or undershoots and nodes are mis-flagged",
-        "surface_3D: the solid-angle arithmetic (arccos/arcsin, < 4*pi - 1e-5) is not modelled; the model flags nodes of a hexahedral block with fewer than 8 incident elements; boundary <=> flagged on perturbed blocks is decided by correspondence + oracle (test, not proof); the oracle also compares the code's per-corner solid angle with the Van Oosterom-Strackee value (1e-6) on unperturbed boxes and as a lower bound on perturbed blocks",
+        "surface_3D: the solid-angle arithmetic (arccos/arcsin, < 4*pi - 1e-5) is not modelled; the model flags nodes of a hexahedral block with fewer than 8 incident elements; boundary <=> flagged on perturbed blocks is decided by correspondence + oracle (test, not proof); the oracle also compares the code's per-corner solid angle with the Van Oosterom-Strackee value (1e-6): equality is required on unperturbed cubes with a uniform scale only, everywhere else (boxes with unequal edges, perturbed blocks) the value is a lower bound",
         "pandas semantics modelled by list functions and trusted: groupby (ascending keys, rows in frame order), groupby.first() / .mean(), sort_index(level=..., sort_remaining=False) being STABLE (first-element-wins depends on it), Index.duplicated(keep='first'), Index.get_indexer, Series.max / idxmax (first occurrence; NaN values are skipped: the model filters them out of the maximum, the hot-spot theorems are over a linear order where that filter is the identity - NaN entries are covered by correspondence + oracle only), boolean ^ of mis-aligned Series filling with False (hotspot.py), column selection by name",
         "first-order elements: on 16/20-node hexahedra and 10-node tetrahedra the code (documented) uses the corner nodes only and returns 0 at the mid-side nodes; the model does the same; clause (a) fails there - open finding g3d-midside-zero",
-        "the least-squares model addresses node rows through the id -> position map of the sorted node ids (behaviour after the repair tools/fixes/C19-gradient-node-positions.diff, committed as 65c89f2)",
+        "the least-squares model addresses node rows through the id -> position map of the sorted node ids (behaviour after the repair, /repo commit 65c89f2)",
     ]
-    # open finding map-hull-vertex-nan: observed 0-1 of ~40 same-point cases per quick run (+ the corpus witness), 2-9 of ~400 per
-    # thorough run; more than this, more than 2 NaN in one case, or a NaN that does not show the mechanism is a new failure
+    # open finding map-hull-vertex-nan: observed 0-1 of ~40 same-point cases per quick run (+ the corpus witness), 2-3 of ~400
+    # per thorough run; more than the rate below, more than 2 NaN in one case, or a NaN that does not show the mechanism is a new failure
     HULL_NAN_RATE = (3, 0.04)      # allowed hits = 3 + 0.04 x number of same-point cases of the run (observed: <= 1 of ~40, <= 3 of ~400)
     HULL_NAN_PER_CASE = 2
 
@@ -461,7 +468,7 @@ class C19(Prop):
         return cols
 
     def _scale(self, rng, purpose, tilted=False):
-        """Coordinate scales: unit conversion (uniform 1e-6 … 1e3) and anisotropy (at most 4 decades)."""
+        """Coordinate scales: unit conversion (uniform 1e-6 … 1e3) and anisotropy (at most 4 decades; per-axis values 1e-6 … 1e5)."""
         mode = rng.random()
         if mode < 0.45:
             return None
@@ -645,8 +652,9 @@ class C19(Prop):
         return {"kind": "map", "mode": mode, "verts": verts, "vals": vals, "pts": pts}
 
     def _lsq_mesh_ok(self, mesh):
-        """The least-squares model is only claimed where its rank decision and LAPACK's provably coincide (see ASSUMPTIONS):
-        3-D meshes need sigma3/sigma1 >= 1e-5 at every node, planar ones sigma2/sigma1 >= 1e-5."""
+        """The least-squares model is only claimed where its rank decision and LAPACK's coincide (an argued bound, see
+        ASSUMPTIONS, not a proof): 3-D meshes need sigma3/sigma1 >= 1e-5 at every node, planar ones sigma2/sigma1 >= 1e-5.
+        A mesh that is rejected here only loses its `scale` (see generate); the unscaled mesh is not checked again."""
         prof = lsq_rank_profile(build(mesh))
         et = mesh["etype"]
         if et == "bar":
